@@ -68,8 +68,8 @@ def mode_cv(
         return np.array(len(freqs) * [Kb])
     else:
         x = freqs / Kb / temp
-        expVal = np.exp(x)
-        return Kb * x**2 * expVal / (expVal - 1.0) ** 2
+        expVal = np.exp(-x)
+        return Kb * x**2 * expVal / np.expm1(-x) ** 2
 
 
 def mode_F(
@@ -96,7 +96,7 @@ def mode_F(
     if classical:
         return Kb * temp * np.log(freqs / (Kb * temp))
     else:
-        return Kb * temp * np.log(1.0 - np.exp((-freqs) / (Kb * temp))) + freqs / 2
+        return Kb * temp * np.log(-np.expm1((-freqs) / (Kb * temp))) + freqs / 2
 
 
 def mode_S(
@@ -123,10 +123,9 @@ def mode_S(
     if classical:
         return Kb - Kb * np.log(freqs / (Kb * temp))
     else:
-        val = freqs / (2 * Kb * temp)
-        return 1 / (2 * temp) * freqs * np.cosh(val) / np.sinh(val) - Kb * np.log(
-            2 * np.sinh(val)
-        )
+        val = freqs / (Kb * temp)
+        denom = -np.expm1(-val)
+        return Kb * (val * np.exp(-val) / denom - np.log(denom))
 
 
 def mode_ZPE(
